@@ -9,6 +9,8 @@ Spec3 == MCInit3 /\ [][Next]_vars
 \* bounded task queue: queue_size in 1..2
 MCInitCap == \E mx \in 1..2 : \E mn \in 0..mx : \E cap \in 1..2 : InitWithCap(mx, mn, MCGated, cap)
 SpecCap == MCInitCap /\ [][Next]_vars
+\* a fixed size for targeted searches (max 3, min 0)
+SpecLost == InitWith(3, 0, MCGated) /\ [][Next]_vars
 T2 == {1, 2}
 T3 == {1, 2, 3}
 T4 == {1, 2, 3, 4}
@@ -23,6 +25,8 @@ Ops2_52 == [c \in {1, 2} |-> IF c = 1 THEN 5 ELSE 2]
 Ops2_42 == [c \in {1, 2} |-> IF c = 1 THEN 4 ELSE 2]
 Ops2_32 == [c \in {1, 2} |-> IF c = 1 THEN 3 ELSE 2]
 Ops2_31 == [c \in {1, 2} |-> IF c = 1 THEN 3 ELSE 1]
+Ops2_22 == [c \in {1, 2} |-> 2]
+Ops2_23 == [c \in {1, 2} |-> IF c = 1 THEN 2 ELSE 3]
 \* liveness: every thread keeps taking steps, except that a running task need not finish and a client
 \* need not issue further operations ("without waiting for any running task to finish")
 WorkerNoEnd(w) == WDead(w) \/ WCheck(w) \/ WGet(w) \/ WSDone(w) \/ WActive(w) \/ WActive1(w) \/ WActive1b(w) \/ WActive2(w) \/ WCleanup2(w) \/ WBegin(w)
